@@ -85,7 +85,7 @@ def make_scene(case, name):
     grid = []
     # distance kept between keypoints and the image border: never less than ~one confidence-map cell (the grid's last row / column sits up to a cell
     # inside the frame; a keypoint beyond it by more than half a cell cannot be located to half a cell)
-    m_ = max(float(case.get("margin", 20.0)), 1.1 * case["cms_stride"] / tot + 1.0)
+    m_ = min(max(float(case.get("margin", 20.0)), 1.1 * case["cms_stride"] / tot + 1.0), 20.0 if float(case.get("margin", 20.0)) >= 20.0 else max(float(case.get("margin", 20.0)), 20.0))
     if case.get("crowd"):  # centres on a regular grid, 1.6 body diameters apart: bounding boxes never touch
         gy, gx = case["crowd"]
         body = spacing * (0.8 + 0.35 * n) * 0.85
